@@ -26,9 +26,10 @@ from wdmc.fsops import inside, parent
 
 LEVEL = "model_checking"
 RULE = (
-    "Parts W/M: for every initial tree over the fsops universe {d,e,d/d,e/d,f,g,d/f,e/f} with <= 2 (quick) / <= 3 "
-    "(thorough) entries and every burst of 1..2 (quick) / 1..3 (thorough) operations of the C01 alphabet that respects "
-    "the directory pacing condition (plus every such burst of <= 2 operations ending in the deletion of the watched "
+    "Parts W/M: for every initial tree over the fsops universe with <= 2 entries and every burst of 1..2 (quick) / 1..3 "
+    "(thorough) operations, and (thorough) every tree with <= 3 entries and every burst of 1..2 operations, of the C01 "
+    "alphabet (fsops.bursts) that respects the directory pacing condition [the full product trees <= 3 x bursts <= 3 is "
+    "behind the environment switch C20_FULL=1: ~13 min on 16 idle cores] (plus every such burst of <= 2 operations ending in the deletion of the watched "
     "root): render the operations into the native notification sequence (W: variants parent-MODIFIED off/on x "
     "cross-directory rename as OLD+NEW / REMOVED+ADDED, recursive and non-recursive watch; parent-MODIFIED on only for "
     "bursts <= 2; M: coalesced item placed at its last / first change, flags of earlier batches repeated or not, recursive and non-recursive watch, "
@@ -714,7 +715,7 @@ def mac_contract(h, notifs, res, recursive, place="last"):
                 elif ids.get(p) == ident:
                     gs = find("Created", p, None)
                     if not 1 <= len(gs) <= sum(1 for k in per_item if k[0] == p):
-                        out.append(("table: move in -> no created event",
+                        out.append((f"table: move in -> {min(len(gs), 2)} created events for the arrived entry (expected 1)",
                                     f"{where}: expected one created event for {p!r}; events: {shown}", cd))
                         continue
                     if not any(g[4] == (kind == "d") for g in gs):
@@ -860,6 +861,9 @@ TWICE_FP = ("mac: item renamed twice inside one batch (the ItemRenamed flags of 
             "a->b->a) -> only the first pairing is reported, stale/missing name in the replay")
 
 
+JUMP_FP = ("mac: rename pairing jumps over intermediate items (an ItemRenamed item is paired with a later, non-adjacent item of "
+           "the same inode - item moved out of the tree and back under another name - and the moved event is queued before "
+           "the events of the items in between, e.g. the departure of the old occupant of the destination)")
 ORDER_FP = ("mac [only when a coalesced item is reported at the position of its FIRST change]: an item's coalesced "
             "ItemRenamed is processed before earlier changes of other items -> moved/created/deleted events out of order")
 
@@ -882,6 +886,15 @@ def classify_mac(h, notifs, steps, res, detail, recursive, suppress_history=Fals
                 cnt[(p, ident)] = cnt.get((p, ident), 0) + 1
         if any(v >= 2 for v in cnt.values()):
             return TWICE_FP
+    for st in steps:
+        if st[0] != "batch":
+            continue
+        items = macsim.coalesce([notifs[j][1] for j in range(st[1], st[2])], place)
+        for a, (pa, ia, fa) in enumerate(items):
+            if fa & F.F_RENAMED:
+                nxt = next((b for b in range(a + 1, len(items)) if items[b][2] & F.F_RENAMED and items[b][1] == ia), None)
+                if nxt is not None and nxt > a + 1:
+                    return JUMP_FP
     return (f"mac: replay-mismatch unclassified [{'recursive' if recursive else 'non-recursive'}; missing={bool(detail['missing'])} "
             f"stale={bool(detail['extra'])} wrong-kind={bool(detail['wrong'])}]")
 
@@ -1317,21 +1330,41 @@ def setup(tier):
 
 
 def plan(tier):
+    """quick: trees <= 2 entries x bursts <= 2.  thorough: trees <= 2 entries x bursts <= 3 plus trees <= 3 entries x
+    bursts <= 2 (the full product trees <= 3 x bursts <= 3 costs ~13 min on 16 idle cores with the current fsops
+    alphabet and grows with it; it was run twice with identical counts and no further fingerprint - switch FULL on to
+    get it back)."""
     q = tier == "quick"
     T = fsops.small_trees
+    W = dict(recursive=True, parent_mod_max_burst=2)
     if q:
-        big, n, small = T(2), 2, T(1)
+        return [
+            dict(layer="win", cfg=W, trees=T(2), n=2, label="W recursive"),
+            dict(layer="win", cfg=dict(recursive=False), trees=T(1), n=2, label="W non-recursive"),
+            dict(layer="win", cfg=dict(recursive=True), trees=T(1), n=2, root_delete=True, label="W root deleted"),
+            dict(layer="mac", cfg=dict(recursive=True), trees=T(2), n=2, label="M recursive"),
+            dict(layer="mac", cfg=dict(recursive=False), trees=T(2), n=2, label="M non-recursive"),
+            dict(layer="mac", cfg=dict(recursive=True, suppress_history=True), trees=T(1), n=2, label="M recursive suppress_history"),
+            dict(layer="mac", cfg=dict(recursive=True), trees=T(1), n=2, root_delete=True, label="M root deleted"),
+        ]
+    if FULL:
+        big = [dict(layer="win", cfg=W, trees=T(3), n=3, label="W recursive"),
+               dict(layer="mac", cfg=dict(recursive=True), trees=T(3), n=3, label="M recursive")]
     else:
-        big, n, small = T(3), 3, T(2)
-    return [
-        dict(layer="win", cfg=dict(recursive=True, parent_mod_max_burst=2), trees=big, n=n, label="W recursive"),
-        dict(layer="win", cfg=dict(recursive=False), trees=small if q else big, n=2, label="W non-recursive"),
-        dict(layer="win", cfg=dict(recursive=True), trees=small, n=2, root_delete=True, label="W root deleted"),
-        dict(layer="mac", cfg=dict(recursive=True), trees=big, n=n, label="M recursive"),
-        dict(layer="mac", cfg=dict(recursive=False), trees=big, n=2, label="M non-recursive"),
-        dict(layer="mac", cfg=dict(recursive=True, suppress_history=True), trees=small, n=2, label="M recursive suppress_history"),
-        dict(layer="mac", cfg=dict(recursive=True), trees=small, n=2, root_delete=True, label="M root deleted"),
+        big = [dict(layer="win", cfg=W, trees=T(2), n=3, label="W recursive, trees <= 2 entries, bursts <= 3"),
+               dict(layer="win", cfg=W, trees=T(3), n=2, label="W recursive, trees <= 3 entries, bursts <= 2"),
+               dict(layer="mac", cfg=dict(recursive=True), trees=T(2), n=3, label="M recursive, trees <= 2 entries, bursts <= 3"),
+               dict(layer="mac", cfg=dict(recursive=True), trees=T(3), n=2, label="M recursive, trees <= 3 entries, bursts <= 2")]
+    return big + [
+        dict(layer="win", cfg=dict(recursive=False), trees=T(3), n=2, label="W non-recursive"),
+        dict(layer="win", cfg=dict(recursive=True), trees=T(2), n=2, root_delete=True, label="W root deleted"),
+        dict(layer="mac", cfg=dict(recursive=False), trees=T(3), n=2, label="M non-recursive"),
+        dict(layer="mac", cfg=dict(recursive=True, suppress_history=True), trees=T(2), n=2, label="M recursive suppress_history"),
+        dict(layer="mac", cfg=dict(recursive=True), trees=T(2), n=2, root_delete=True, label="M root deleted"),
     ]
+
+
+FULL = bool(os.environ.get("C20_FULL"))
 
 
 def run(ctx):
